@@ -121,7 +121,7 @@ func TestVerifC09(t *testing.T) {
 	nl := verifx.EnvInt("VERIF_LANES", 8)
 	jobs := make(chan *verifx.TunnelCase, 64)
 	var wg sync.WaitGroup
-	var ran, evals, nontrivial, hangs, skipped int64
+	var ran, evals, nontrivial, hangs, skipped, aborted int64
 	var seen sync.Map
 	var sampleMu sync.Mutex
 	var samples []string
@@ -145,6 +145,11 @@ func TestVerifC09(t *testing.T) {
 		go func() {
 			defer wg.Done()
 			for c := range jobs {
+				if verifx.TunnelHangs() >= 24 {
+					// the run is inconclusive already; do not spend ten seconds on each remaining scenario
+					atomic.AddInt64(&aborted, 1)
+					continue
+				}
 				addr, ok := lane.addr[c.Path]
 				hello := hellos[c.Hello]
 				if !ok || (c.Sc.Kind == "sni") != (c.Path == "sni") || (c.Sc.Kind == "sni" && hello == nil) || (c.Path == "dyn" && c.Sc.Proxy == 1) {
@@ -190,7 +195,7 @@ func TestVerifC09(t *testing.T) {
 	close(jobs)
 	wg.Wait()
 	verifx.Summary(map[string]any{"cases": len(cases), "ran": ran, "evaluations": evals, "distinct_nontrivial": nontrivial,
-		"hangs": hangs, "skipped": skipped, "samples": samples,
+		"hangs": hangs, "skipped": skipped, "aborted": aborted, "samples": samples,
 		"tcp": *perPath["tcp"], "sni": *perPath["sni"], "dyn": *perPath["dyn"],
 		"hello_sizes": map[string]int{"tls13": len(hellos["tls13"]), "tls12": len(hellos["tls12"])}})
 }
